@@ -438,16 +438,16 @@ InjectKeep(st0, s) ==
              pn == NextNode(st0)
              st1 == AddNode([st0 EXCEPT !.nprobe = pid, !.pcre = Append(@, <<st0.cur, st0.callno>>)],
                             [Node("probe", 0) EXCEPT !.a = pid, !.b = s.b, !.c = s.a])
-         IN Push([st1 EXCEPT !.handles = Append(@, 0), !.hcre = Append(@, <<st0.cur, st0.callno>>)],
+         IN Push([st1 EXCEPT !.handles = Append(@, -1), !.hcre = Append(@, <<st0.cur, st0.callno>>)],
                  <<Sub(s.a, pn), F1("sethandle", Len(st1.handles) + 1)>>)
     [] s.k = "emit" ->           \* notification (t, v) on hot subject a
          Push(st0, SubjEmit(st0, s.a, s.t, s.v))
     [] s.k = "emitc" ->          \* notification through the stashed subscribers of `create` input a
          Push(st0, HotCalls(st0.hots[s.a], s.t, s.v))
     [] s.k = "unsub" ->          \* unsubscribe handle a (nothing to do if another thread has not created it yet)
-         IF s.a > Len(st0.handles) THEN [st0 EXCEPT !.ret = <<"noop">>] ELSE Push(st0, <<Unsub(st0.handles[s.a])>>)
+         IF s.a > Len(st0.handles) \/ st0.handles[s.a] = -1 THEN [st0 EXCEPT !.ret = <<"noop">>] ELSE Push(st0, <<Unsub(st0.handles[s.a])>>)
     [] s.k = "closed" ->         \* is_closed() on handle a
-         LET c == IF s.a > Len(st0.handles) THEN 1 ELSE Closed(st0, st0.handles[s.a]) IN
+         LET c == IF s.a > Len(st0.handles) \/ st0.handles[s.a] = -1 THEN 1 ELSE Closed(st0, st0.handles[s.a]) IN
          IF c = 2 THEN Busy(st0) ELSE [st0 EXCEPT !.ret = B(c = 1)]
     [] s.k = "squery" -> Push(st0, <<Fr("squery", s.a, "", U, s.b)>>)
     [] s.k = "sretain" -> Push(st0, <<F1("sretain", s.a)>>)
@@ -464,7 +464,7 @@ InjectKeep(st0, s) ==
     [] s.k = "stwait" -> Push(st0, <<F1("stpoll", st0.statcells[s.a])>>)     \* CompleteStatus::wait_for_end
     [] s.k = "build" -> st0      \* assembling a pipeline performs no work
     [] s.k = "connect" ->        \* connect() on the published observable AST a; keep the returned subscription as a handle
-         Push([st0 EXCEPT !.handles = Append(@, 0)], <<F2("connect", Len(st0.handles) + 1, s.a)>>)
+         Push([st0 EXCEPT !.handles = Append(@, -1)], <<F2("connect", Len(st0.handles) + 1, s.a)>>)
     [] s.k = "bterm" ->          \* error / complete on a BehaviorSubject
          Push(st0, SubjEmit(st0, s.a, s.t, s.v))
     [] s.k = "mappend" ->        \* MultiSubscription API: append handle b to the composite handle a
